@@ -82,10 +82,10 @@ impl BitmapEvent {
                     rle_16_decompress(&self.data, self.width as usize, self.height as usize, &mut result)?;
                     result
                 } else {
-                    // uncompressed rows are stored bottom-up
+                    // uncompressed rows are stored bottom-up and padded to a multiple of four bytes
                     let width = self.width as usize;
                     let height = self.height as usize;
-                    let stride = width * 2;
+                    let stride = (width * 2 + 3) & !3;
                     if self.data.len() < stride * height {
                         return Err(Error::RdpError(RdpError::new(RdpErrorKind::InvalidSize, "Bitmap data too short for its dimensions")))
                     }
